@@ -81,4 +81,66 @@ theorem old_lookup_order_loses_everything :
     (s0.clients[1]?.map (·.loaded)) = some [] ∧ (s0.clients[1]?.map (·.toLoad)) = some [] ∧ s0.stored = [0, 1] := by
   decide
 
+/-! ### what the theorems above do NOT cover: a vacuum inside the open (finding F81)
+
+`step` has no action that removes a version from `root/merged/`; `listed_stays_loadable` is a
+theorem about writers and openers only.  `s3db_vacuum` with a cutoff younger than a commit that
+happened during the open does remove one.  Replayed on the model with that one extra mutation:
+the opener has listed version 0, the writer commits version 1 (retiring 0) and vacuums 0 away,
+and the opener, which finds 0 in neither place, skips it and completes with nothing — although
+version 0 had been stored before it listed (`seen`).  C03's quantifier ("a committing writer")
+and C09's ("any connection opened afterwards") both stop short of this schedule; it is recorded
+as finding F81, not proved away. -/
+
+/-- `DeleteHistoricVersions` removing a retired version object -/
+def vacuumDeletes (s : Sys) (v : Vid) : Sys :=
+  { s with bucket := { s.bucket with merged := s.bucket.merged.filter (· ≠ v) } }
+
+theorem open_racing_commit_and_vacuum_sees_nothing :
+    let s1 : Sys := run F (init [false, true])
+      [(0, .startCommit), (0, .step), (0, .step),                       -- writer 0 commits version 0
+       (1, .startOpen), (1, .step),                                     -- opener 1 lists {0}
+       (0, .startCommit), (0, .step), (0, .step), (0, .step), (0, .step)] -- writer commits 1, retires 0
+    let s2 : Sys := run F (vacuumDeletes s1 0)
+      [(1, .step), (1, .step), (1, .step), (1, .step)]                  -- GET current/0, GET merged/0, skip, complete
+    (s1.clients[1]?.map (·.seen)) = some [0] ∧                          -- 0 was committed before the LIST
+    (s2.clients[1]?.map (·.opening)) = some false ∧ (s2.clients[1]?.map (·.source)) = some [] ∧
+    s2.bucket.current = [1] := by
+  decide
+
+/-- the same schedule without the vacuum: the opener finds version 0 under `root/merged/` -/
+example :
+    let s2 : Sys := run F (init [false, true])
+      [(0, .startCommit), (0, .step), (0, .step), (1, .startOpen), (1, .step),
+       (0, .startCommit), (0, .step), (0, .step), (0, .step), (0, .step),
+       (1, .step), (1, .step), (1, .step)]
+    (s2.clients[1]?.map (·.source)) = some [0] := by
+  decide
+
+/-! ### lock-step merging opens (finding F83, property C01's last clause)
+
+Two openers that list the same two current versions before either has committed its merge each
+write a merge version of their own and retire the old pair: two current versions again. -/
+
+private def round (a b : Nat) : List (Nat × Act) :=
+  [(a, .startOpen), (b, .startOpen), (a, .step), (b, .step)] ++      -- both LIST before anything else
+  (List.replicate 12 (a, .step)) ++ (List.replicate 12 (b, .step))    -- GETs (the second opener finds the pair under merged/), complete, 6 commit requests
+
+theorem lockstep_merging_opens_do_not_converge :
+    let s0 : Sys := run F (init [false, false, false, false])
+      [(0, .startCommit), (0, .step), (0, .step), (1, .startCommit), (1, .step), (1, .step)]
+    let s1 := run F s0 (round 2 3)
+    let s2 := run F s1 (round 2 3)
+    s0.bucket.current = [0, 1] ∧ s1.bucket.current = [2, 3] ∧ s2.bucket.current = [4, 5] ∧
+    s2.vers.getD 4 [] = [2, 3] ∧ s2.vers.getD 5 [] = [2, 3] := by
+  decide
+
+/-- one opener at a time converges: a single current version -/
+example :
+    let s0 : Sys := run F (init [false, false, false, false])
+      [(0, .startCommit), (0, .step), (0, .step), (1, .startCommit), (1, .step), (1, .step)]
+    let s1 := run F s0 ([(2, .startOpen)] ++ List.replicate 12 (2, .step) ++ [(3, .startOpen)] ++ List.replicate 12 (3, .step))
+    s1.bucket.current = [2] := by
+  decide
+
 end S3db.Props.C03
